@@ -66,6 +66,7 @@ NAMESPACES = [[], [['n']], [['n'], ['m']]]
 
 # name pools with string-prefix pairs on purpose: a/ab at the top, x/xy below
 POOLS = [[['a'], ['a', 'b'], ['b']], [['x'], ['x', 'y'], ['y']], [['z']]]
+POOLS_SMALL = [[['a'], ['a', 'b'], ['b']], [['x'], ['x', 'y']], [['z']]]
 
 
 class Alloc:
@@ -218,13 +219,17 @@ def universe(tier, seed):
        block B: a few shapes x every namespace x every destination x every options dict x in/out, few rule sets."""
     rng = random.Random(1000003 * int(seed) + 15)
     if tier == 'quick':
-        bounds = dict(nodes=4, depth=2, extra_nodes=4, extra_depth=3, extra_share=6, out_share=4, block_b_trees=3, per_ns=1)
+        bounds = dict(pool='small', nodes=4, depth=2, deep_pool='small', deep_nodes=4, deep_depth=3, deep_share=2, out_share=4,
+                      block_b_trees=3, per_ns=1)
     else:
-        bounds = dict(nodes=5, depth=2, extra_nodes=5, extra_depth=3, extra_share=1, out_share=2, block_b_trees=8, per_ns=2)
-    base = shapes(0, bounds['nodes'], bounds['depth'])
+        bounds = dict(pool='full', nodes=5, depth=2, deep_pool='small', deep_nodes=5, deep_depth=3, deep_share=1, out_share=3,
+                      block_b_trees=8, per_ns=1)
+    pools = {'full': POOLS, 'small': POOLS_SMALL}
+    base = shapes(0, bounds['nodes'], bounds['depth'], pools[bounds['pool']])
     seen = {repr(s) for s in base}
-    deep = [s for s in shapes(0, bounds['extra_nodes'], bounds['extra_depth']) if repr(s) not in seen]
-    deep = [s for i, s in enumerate(deep) if i % bounds['extra_share'] == rng.randrange(bounds['extra_share']) or bounds['extra_share'] == 1]
+    deep = [s for s in shapes(0, bounds['deep_nodes'], bounds['deep_depth'], pools[bounds['deep_pool']]) if repr(s) not in seen]
+    pick = rng.randrange(bounds['deep_share'])
+    deep = [s for i, s in enumerate(deep) if i % bounds['deep_share'] == pick]
     allshapes = base + deep
     trees, tree_io = [], []
     dests_in, dests_out = destinations('in'), destinations('out')
